@@ -97,7 +97,9 @@ var _ = strings.Contains
 // VerifH_C05_RunFaults: machines from the C02 shape family run on a data tree whose
 // k-th callback fails; the result must carry that error (or a value when nothing failed).
 func VerifH_C05_RunFaults() {
-	texts := []string{"a", "/a/b", "a[k = ../x]/b", "current()/../x", "deref(l)/a", "a[k='v'][m = current()/../x]", "concat(a, b)", "a = b", "a + 1", "not(a) and b"}
+	texts := []string{"a", "/a/b", "a[k = ../x]/b", "current()/../x", "deref(l)/a", "a[k='v'][m = current()/../x]", "concat(a, b)", "a = b", "a + 1", "not(a) and b",
+		"count(a)", "local-name(a)", "string-length(a/b)", "number(a) + number(../b)", "boolean(a/b) or c", "substring(a, 1, 2) = b",
+		"starts-with(a, ../b)", "a[k = current()/a]/b = ../c", "normalize-space(a) != translate(b, 'x', 'y')", "re-match(a, b)", "deref(l)/../a > 1"}
 	ti := vrt.Choice("expr", len(texts))
 	text := texts[ti]
 	failAt := vrt.Choice("failAt", 8) // 0 = no failure
@@ -145,4 +147,23 @@ func VerifH_C05_RunFaults() {
 			vrt.Assert(e1 == nil, "c05.run.value-present")
 		}
 	}
+}
+
+
+// every way an expression can end: well-formed expressions cut at every byte position,
+// optionally continued by up to two arbitrary bytes, through the three compilers.
+var c05Texts = []string{
+	"/a/b[k = 'v'][m = current()/../x] != 3.5 and not(starts-with(../p:c, \"q\"))",
+	"deref(current()/../l)/../a[k = concat('x', ../y)]/b",
+	"../a/p:b[p:k = current()/../x]/c",
+}
+
+func VerifH_C05_Truncations() {
+	g := vrt.Param("grammar", 0)
+	t := c05Texts[vrt.Choice("text", len(c05Texts))]
+	cut := vrt.Choice("cut", len(t)+1)
+	extra := vrt.Choice("extra", vrt.Param("extra", 1)+1)
+	text := t[:cut] + string(vrt.Bytes("x", extra))
+	vrt.Reach("c05.truncations." + grammarNames[g])
+	compileTotal(g, text, "c05.cut["+grammarNames[g]+"]")
 }
